@@ -218,6 +218,38 @@ pub fn check(c: &Case) -> Out {
             }
         }
     }
+    // end to end through the real runner: exactly the accepted scenarios get Started
+    if c.features.len() % 2 == 0 || kept % 3 == 0 {
+        use cucumber::event::{Cucumber as Cu, Feature as Fe, Rule as Ru, Scenario as Sc};
+        let rec = Rec::default();
+        let opts = cli::Opts::<cli::Empty, cucumber::runner::basic::Cli, cli::Empty, cli::Empty> { re_filter: name_re.clone(), tags_filter: c.tags.clone(), parser: cli::Empty, runner: cucumber::runner::basic::Cli::default(), writer: cli::Empty, custom: cli::Empty };
+        let cuc = Cucumber::<W, _, (), _, _, cli::Empty>::custom(VecParser(c.features.iter().cloned().map(Ok).collect()), cucumber::runner::Basic::<W>::default(), rec.clone()).with_cli(opts);
+        let _ = std::panic::catch_unwind(std::panic::AssertUnwindSafe(|| match cm {
+            Some((m, k)) => {
+                block_on(cuc.filter_run((), move |_, _, s| s.position.line % m == k));
+            }
+            None => {
+                block_on(cuc.run(()));
+            }
+        }));
+        crate::lab::driver::install_probe_hook();
+        let mut started: Vec<String> = rec
+            .raw
+            .borrow()
+            .iter()
+            .filter_map(|e| match e.as_ref().ok().map(|e| &e.value) {
+                Some(Cu::Feature(_, Fe::Scenario(s, ev))) if matches!(ev.event, Sc::Started) => Some(s.name.clone()),
+                Some(Cu::Feature(_, Fe::Rule(_, Ru::Scenario(s, ev)))) if matches!(ev.event, Sc::Started) => Some(s.name.clone()),
+                _ => None,
+            })
+            .collect();
+        let mut exp_names: Vec<String> = expected.iter().flat_map(|f| f.scenarios.iter().map(|s| s.name.clone()).chain(f.rules.iter().flat_map(|r| r.scenarios.iter().map(|s| s.name.clone())))).collect();
+        started.sort();
+        exp_names.sort();
+        if started != exp_names {
+            viol.push(v("started-set", format!("with the real runner the scenarios that got Started are {started:?}, the active filter accepts {exp_names:?}")));
+        }
+    }
     let nontrivial = kept > 0 && dropped > 0 && rule_tag_decides;
     let mut labels = vec![];
     if c.name_re.is_some() && (c.tags.is_some() || c.closure_mod.is_some()) {
